@@ -103,6 +103,21 @@ func runRace(cfg *Cfg) {
 			// not "normalise" them either
 			g := &vval.GenOpts{MaxDepth: 3, Unknown: r.Bool(), EnumNums: enumNums(t), BigMaps: r.Chance(30), NilJunk: c%3 == 2}
 			v := g.Message(r, t.S, 0, 0)
+			if c%3 == 2 {
+				// every oneof of the root holds a typed-nil wrapper: reads must treat it as unset
+				// without rewriting it
+				seenG := map[int]bool{}
+				for j, f := range t.S.Msgs[0].Fields {
+					if f.Shape == vschema.Oneof && j < len(v.Kids) {
+						if !seenG[f.Group] {
+							seenG[f.Group] = true
+							v.Kids[j] = vval.VOneNil()
+						} else {
+							v.Kids[j] = vval.VNone()
+						}
+					}
+				}
+			}
 			msg := t.B.ToMessage(0, v)
 			twin := t.B.ToMessage(0, v) // identical, unshared: the sequential baseline never touches `msg`
 			if c%2 == 1 { // a message fresh from the decoder
@@ -145,7 +160,7 @@ func runRace(cfg *Cfg) {
 			}
 			close(start)
 			wg.Wait()
-			if after := vval.Canon(t.S, 0, t.B.FromMessage(0, msg)).String(); after != vval.Canon(t.S, 0, t.B.FromMessage(0, twin)).String() && c%2 == 0 {
+			if after := vval.Canon(t.S, 0, t.B.FromMessage(0, msg)).String(); after != vval.Canon(t.S, 0, t.B.FromMessage(0, twin)).String() {
 				out.Violate("C11", "readers-changed-struct", "concurrent read-only operations changed the Go struct of the shared message", replay)
 			}
 			for k := 0; k < gor; k++ {
